@@ -46,6 +46,33 @@ CHARS = ["'", '"', "\\", "$", "{", "}", "\u00e9", "\U0001F600", "\n", "n", "u", 
 CHAR_CTX = [("bare", "%s"), ("sq", "'%s'"), ("dq", '"%s"'), ("interp", "'a${%s}b'"), ("comment", "// %s\n1;"), ("number", "1%s"), ("ident", "let v%s = 1;")]
 
 
+# structural: every nesting of containers up to a depth bound around every leaf statement (which statement is legal where:
+# break/continue and loops, return and functions, self/super/@ and classes, export/import and the module level, declarations in blocks)
+NEST = [("while", "while c { %s }"), ("for", "for i#D in [1] { %s }"), ("fn", "fn f#D() { %s }"), ("lambda", "let l#D = || { %s };"),
+        ("method", "class A#D { m() { %s } }"), ("init", "class B#D { init() { %s } }"), ("static", "class C#D { static s() { %s } }"),
+        ("if", "if c { %s }"), ("else", "if c {} else { %s }"), ("try", "try { %s } catch e#D {}"), ("catch", "try {} catch e#D { %s }")]
+LEAVES = ["break;", "continue;", "return;", "return 1;", "raise Error('x');", "self;", "super.m();", "@x;", "export let q = 1;",
+          "import std.math;", "let a = 1;", "print(1);", "class Z {}", "fn z() {}", "trait T { a: number }", "type N = number;",
+          "launch print(1);", "<- ch;", "|| { break; };", "let g = || continue;", "let h = || { return 2; };"]
+
+# scoping: every binder form referring to its own name, in every context, with and without an outer declaration of that name
+SELF_REF = ["let n = n;", "let n = || n;", "let n = [n];", "let n = n + 1;", "for n in n {}", "for n in [n] {}", "for n in n.iter() { print(n); }",
+            "try {} catch n: n {}", "try { raise Error('a'); } catch n: n { print(n); }", "try {} catch n { let n = 1; }", "fn n(n) { n }",
+            "fn f(n, n) {}", "class n : n {}", "class n { n() { n } }", "let n = 1; let n = 2;", "let f = |n| n; f(n);", "let f = |n, n| n;",
+            "for n in [1] { let n = n; }", "for n in [1] { for n in [n] { print(n); } }", "n = 1;", "n += 1;", "print(n);", "let n = n = 1;",
+            "fn g() { n } let n = 1;", "let n = 1; fn g() { let n = n; }"]
+SCOPE_CTX = [("module", "%s"), ("fn", "fn ctx() { %s } ctx();"), ("lambda", "let ctx = || { %s }; ctx();"), ("method", "class Ctx { m() { %s } } Ctx().m();"),
+             ("for", "for q in [1] { %s }"), ("catch", "try { raise Error('c'); } catch ce { %s }"), ("if", "if true { %s }"), ("fn_in_fn", "fn o() { fn ctx() { %s } ctx(); } o();")]
+SCOPE_OUTER = [("none", "%s"), ("module", "let n = [Error];\n%s"), ("local", "fn outer() { let n = [Error]; %s } outer();")]
+
+
+def nest_source(path, leaf):
+    body = leaf
+    for d, kind in reversed(list(enumerate(path))):
+        body = dict(NEST)[kind].replace("#D", str(d)) % body
+    return "let c = false; let ch = chan(1); " + body
+
+
 def tokens(src):
     return [t for t in TOK.findall(src)]
 
@@ -128,6 +155,8 @@ class C15(Check):
     rule = ("inputs: (seq) all token sequences up to the tier's length bound over one lexeme per token kind; (mut) every "
             "(chars) every character sequence of length <= 3 (<= 4 thorough for the bare/string/interpolation contexts) over a 24 character alphabet "
             "(quotes, backslash, $, braces, 2- and 4-byte characters, line ends, NUL, escape letters, digits, comment characters) in 7 lexical contexts; "
+            "(nest) every nesting of depth <= 3 (<= 4 thorough) over 11 containers (loops, functions, lambdas, methods, initialisers, statics, if/else, try/catch) "
+            "around each of 21 leaf statements; (scope) 25 self-referring binder forms x 8 contexts x 3 outer declarations; "
             "single-token deletion, duplication, adjacent swap and replacement by each of %d lexemes, every byte prefix and "
             "every single-byte replacement by each of 7 bytes, of each corpus program; (bound) nesting/count boundary family. "
             "Each input: compile-only run, full run (step limit 200k), REPL session [definition, input, probe]. "
@@ -158,6 +187,16 @@ class C15(Check):
             for n in range(1, top + 1):
                 for t in itertools.product(CHARS, repeat=n):
                     yield ("chars:" + ctx, tmpl % "".join(t))
+        # (nest)
+        for depth in range(1, (4 if th else 3) + 1):
+            for path in itertools.product([k for k, _ in NEST], repeat=depth):
+                for leaf in LEAVES:
+                    yield ("nest", nest_source(path, leaf))
+        # (scope)
+        for _, outer in SCOPE_OUTER:
+            for _, ctx in SCOPE_CTX:
+                for body in SELF_REF:
+                    yield ("scope", outer % (ctx % body))
         # (mut)
         corpus = list(SMALL_CORPUS)
         if th:
